@@ -621,6 +621,13 @@ class TryCatch(Rule):
         return text
 
 
+# applied first (before the unit rules): `for (;;)` and `while (true)` are the same loop as `while (1)` (CBMC's contract
+# instrumentation names the latter's obligations; unit rules that key on `while (` see one spelling)
+PRE_RULES = [
+    Sub(r"\bfor\s*\(\s*;\s*;\s*\)", "while (1)", None),
+    Sub(r"\bwhile\s*\(\s*true\s*\)", "while (1)", None),
+]
+
 GENERIC_RULES = [
     DropStmt(r"\bPIKA_LOG", None),
     DropStmt(r"\bLTM_", None),
@@ -640,6 +647,17 @@ GENERIC_RULES = [
     Call(r"\bstd::move", "({args})", None),
     Sub(r"\bstd::((?:u?int(?:8|16|32|64)_t)|size_t|ptrdiff_t|uintptr_t|intptr_t)\b", r"\1", None),
     Sub(r"\bPIKA_UNREACHABLE\b", "VX_UNREACHABLE()", None),
+]
+
+
+# applied last (after the unit's `post` rules): spellings that can never be valid C, so rewriting them can only turn an
+# extraction failure into a decidable unit -- a local introduced by a harmless refactoring (`auto const r = f();`,
+# `pika::threads::detail::thread_restart_state const reason = ...`) must not make the unit undecided
+FALLBACK_RULES = [
+    Sub(r"(?:\b\w+::)+(?:thread_restart_state|thread_schedule_state|thread_priority|thread_stacksize|runtime_state)(\s+const)?\s+(\w+)\s*(=|;)",
+        r"int\1 \2 \3", None),
+    Sub(r"\bstd::(?:size_t|ptrdiff_t|u?int(?:8|16|32|64)_t)\b", lambda m: m.group(0)[5:], None),
+    Auto(None),
 ]
 
 
@@ -726,10 +744,14 @@ class Lift:
             raise
         raw = body
         body = resolve_pp(body)
+        if self.generic:
+            body = apply_rules(body, PRE_RULES)
         body = apply_rules(body, self.rules)
         if self.generic:
             body = apply_rules(body, GENERIC_RULES)
         body = apply_rules(body, self.post)
+        if self.generic:
+            body = apply_rules(body, FALLBACK_RULES)
         body, nloops = splice_loops(body, self.loops)
         if not self.keep_braces:
             body = body.strip()[1:-1]
